@@ -33,6 +33,9 @@ def configs(n, seed):
         ml = MAXLENS[(i * 7 + i // 3) % 4]
         lz = LAZY[(i + i // 4) % 2]
         sess = {"qtype": qt, "downenc": de, "lazy": lz, "maxlen": ml, "fragsize": fr}
+        if i % 6 == 5:
+            # other peers hold the low slots: the client's userid is 10..15 (a letter in every data query name)
+            sess["occupy"] = 10 + (i // 6) % 6
         out.append((sess, dict(path)))
     rng.shuffle(out)
     return out
@@ -244,6 +247,23 @@ def transfer_specs(tier, seed, n_quick=48, n_thorough=400, dur_ms=45000, extra=T
                         "fault_ms": [0, 20000], "pkts": packets(seed + 8000 + i, tier, c2c=True),
                         "dur_ms": 50000, "label": "c2c%d" % i})
     return out
+
+
+def dupspell_specs(tier, seed):
+    """Sessions in which a relay re-sends held queries several times with DIFFERENT spellings in turn: a case-changed
+    copy, then a copy spelled exactly like the original, then another case-changed one (new ids) - every answer must
+    still echo the name of the very query it answers (C10, C14)."""
+    out = []
+    for i in range(8 if tier == "quick" else 60):
+        red = {}
+        for n in range(3, 160, 1 + i % 2):
+            order = [[1, 0, 2], [2, 0, 1], [0, 1, 0], [1, 2, 0]][(n + i) % 4]
+            red[n] = [[0, 1, fl, (n // 5) % 2, 30 + 45 * j] for j, fl in enumerate(order)]
+        out.append({"seed": seed * 100000 + 2500 + i,
+                    "sess": {"qtype": QTYPES[i % 7], "lazy": 1, "fragsize": [None, 200, 100][i % 3]},
+                    "relay": {}, "redeliver": red, "pkts": packets(seed + 250 + i, tier), "dur_ms": 30000,
+                    "label": "dupspell%d" % i})
+    return fit_frag(out)
 
 
 def fit_frag(specs):
